@@ -102,7 +102,7 @@ Fixpoint xattrs_ok (n : node) {struct n} : bool :=
   match n with Node _ s _ kids => keys_sorted (st_xattrs s) && forallb xattrs_ok kids end.
 
 Definition err_class (e : option cerr) : N :=
-  match e with None => 0 | Some EDirOverNondir => 1 | Some ENondirOverDir => 2 | Some ENoParent => 4 end.
+  match e with None => 0 | Some EDirOverNondir => 1 | Some ENondirOverDir => 2 | Some ENotDir => 3 | Some ENoParent => 4 end.
 
 Record c16case := {
   k_L : bytes;            (* landing target, relative to the destination root *)
@@ -172,6 +172,11 @@ Definition model_run (pm : bytes -> bytes -> bool) (c : cfg) (k : c16case) : dfs
 Definition any_late_shadow (pm : bytes -> bytes -> bool) (c : cfg) (k : c16case) : bool :=
   negb (forallb (fun e => nls_path pm c (st_path (fst e))) (walk_root (src_view (k_src k)))).
 
+(* known finding: copier.copy lstats the destination path of EVERY visited source entry; below an
+   unselected source directory whose name is taken by a non-directory in the destination that
+   fails with ENOTDIR and aborts the copy although nothing there is selected *)
+Definition s_stat_unselected : bytes := [115; 116; 97; 116; 45; 98; 101; 108; 111; 119; 45; 117; 110; 115; 101; 108; 101; 99; 116; 101; 100; 45; 110; 111; 110; 100; 105; 114].   (* "stat-below-unselected-nondir" *)
+
 Definition run_1601 (input impl : sx) : sx :=
   match input with
   | SL [sv; dv; inc; exc; SN mode; SB name] =>
@@ -196,14 +201,27 @@ Definition run_1601 (input impl : sx) : sx :=
             | None => v_diff (SL [SN 65535])
             | Some c =>
               let impl' := SL [SN 0; iinc; iexc; SL [SN cls; if N.eqb cls 0 then csnap else SL []]] in
-              let model := SL [SN 0; enc_side (c_inc c); enc_side (c_exc c); outcome k (model_run pm c k)] in
-              let iout := SL [SN cls; if N.eqb cls 0 then csnap else SL []] in
-              let o_naive := outcome k (spec_run (keep_naive pm c) k) in
-              if sx_eqb o_naive iout then verdict model impl' true (SL [])
+              let mr := model_run pm c k in
+              let model := SL [SN 0; enc_side (c_inc c); enc_side (c_exc c); outcome k mr] in
+              (* the specification: success iff no materialised entry meets the wrong type; on
+                 success the destination is exactly what spec_ent says (error classes are not
+                 part of the specification) *)
+              let spec_ok (r : dfs * option cerr) : bool :=
+                match snd r with
+                | None => N.eqb cls 0 && sx_eqb (listing k (fst r)) csnap
+                | Some _ => negb (N.eqb cls 0)
+                end in
+              let r_naive := spec_run (keep_naive pm c) k in
+              if spec_ok r_naive then verdict model impl' true (SL [])
               else
-                let o_incr := outcome k (spec_run (keep_incr pm c) k) in
-                let s := if any_late_shadow pm c k && sx_eqb o_incr iout then [sig s_late_shadow] else [] in
-                verdict model impl' false (SL (s ++ [o_naive]))
+                let r_incr := spec_run (keep_incr pm c) k in
+                let s :=
+                  if any_late_shadow pm c k && spec_ok r_incr then [sig s_late_shadow]
+                  else if match snd mr with Some ENotDir => true | _ => false end && sx_eqb model impl'
+                          && match snd r_incr with None => true | Some _ => false end
+                  then [sig s_stat_unselected]
+                  else [] in
+                verdict model impl' false (SL (s ++ [outcome k r_naive]))
             end
           | _, _ => v_malformed
           end
